@@ -51,6 +51,24 @@ cmp("parse_emc_digi_id.theta", r["theta"], t, [p, t, f]); cmp("parse_emc_digi_id
 ra = p3.parse_emc_digi_id(ak.Array(ids)); cmp("parse_emc_digi_id(ak).gid", ak.to_numpy(ra["gid"]), ge, [p, t, f])
 r = p3.parse_emc_gid(ge, with_pos=False)
 cmp("parse_emc_gid.gid", r["gid"], ge, [ge]); cmp("parse_emc_gid.part", r["part"], p, [ge]); cmp("parse_emc_gid.theta", r["theta"], t, [ge]); cmp("parse_emc_gid.phi", r["phi"], f, [ge])
+# every element once, but NOT in numbering order (same length as the table, same first and last element): sorted by (wire, layer) / (phi, theta, part),
+# the middle shuffled, reversed - a list of ids is looked up element by element, whatever it looks like as a whole
+rs = np.random.RandomState(20260930)
+for tag, gg, cols, fns in (("mdc", g, (l, w), (("mdc_gid_to_layer", p3.mdc_gid_to_layer, l), ("mdc_gid_to_wire", p3.mdc_gid_to_wire, w), ("mdc_gid_to_superlayer", p3.mdc_gid_to_superlayer, mdc["superlayer"]))),
+                           ("emc", ge, (p, t, f), (("emc_gid_to_part", p3.emc_gid_to_part, p), ("emc_gid_to_theta", p3.emc_gid_to_theta, t), ("emc_gid_to_phi", p3.emc_gid_to_phi, f)))):
+    mid = gg[1:-1].copy(); rs.shuffle(mid)
+    orders = {"sorted-by-last-key-first": gg[np.lexsort(cols)], "middle-shuffled": np.concatenate([gg[:1], mid, gg[-1:]]), "reversed": gg[::-1].copy(),
+              "two-swapped": np.concatenate([gg[:1], gg[2:3], gg[1:2], gg[3:]])}
+    for oname, og in orders.items():
+        for fname, fn, col in fns:
+            for dt in (np.int64, np.uint16):
+                cmp(f"{fname}(all {tag} ids, {oname}, {np.dtype(dt).name})", fn(og.astype(dt)), np.asarray(col)[og], [og])
+        if tag == "mdc":
+            cmp(f"get_mdc_gid(all wires, {oname})", p3.get_mdc_gid(l[og], w[og]), og, [l[og], w[og]])
+            r_ = p3.parse_mdc_gid(og, with_pos=False); cmp(f"parse_mdc_gid.layer(all wires, {oname})", r_["layer"], l[og], [og]); cmp(f"parse_mdc_gid.wire(all wires, {oname})", r_["wire"], w[og], [og])
+        else:
+            cmp(f"get_emc_gid(all crystals, {oname})", p3.get_emc_gid(p[og], t[og], f[og]), og, [p[og], t[og], f[og]])
+            r_ = p3.parse_emc_gid(og, with_pos=False); cmp(f"parse_emc_gid.theta(all crystals, {oname})", r_["theta"], t[og], [og]); cmp(f"parse_emc_gid.phi(all crystals, {oname})", r_["phi"], f[og], [og])
 # the same array object parsed again after it was re-filled in place (a preallocated read buffer): the gid of the CURRENT content
 for pname, pf, ids_all, want_all, keys in (("parse_mdc_digi_id", p3.parse_mdc_digi_id, d.get_mdc_digi_id(w, l, np.zeros(len(l), dtype=np.int64)), g, [l, w]),
                                            ("parse_emc_digi_id", p3.parse_emc_digi_id, d.get_emc_digi_id(p, t, f), ge, [p, t, f])):
